@@ -18,7 +18,7 @@ def parseSRCToJson(refcode, word2, word3, word4, word5, word6, word7, word8, wor
     if beh == 'empty':
         return ''
     if beh == 'raise':
-        raise ValueError('fixture SRC parser %s refuses' % NAME)
+        raise verif_fixture.failure(NAME, ''.join(words))
     if beh == 'raise_empty':
         raise ValueError
     if beh == 'importerror':
